@@ -715,6 +715,34 @@ CONFIGS_ST = [
 ]
 
 
+# the documented spellings of each method (keys of `_SIMULATOR_MODULE`): a run is made through one of them, the oracle judges it as the
+# method it names, and the spellings of one method must return identical results
+SPELLINGS = {"stacked_time": ["stacked_time", "stacked"], "period_by_period": ["period_by_period", "period"], "first_order": ["first_order"]}
+
+
+def other_spelling(method, spelling):
+    alts = [x for x in SPELLINGS[method] if x != spelling]
+    return alts[0] if alts else None
+
+
+def same_databox_paths(a, b, names, span_full):
+    """first difference between two returned databoxes on `names` (NaN-equal, bitwise otherwise), or None"""
+    for nm in names:
+        if (nm in a.keys()) != (nm in b.keys()):
+            return f"{nm} is returned by one spelling only"
+        if nm not in a.keys():
+            continue
+        x = np.asarray(a[nm].get_data(span_full), dtype=float)
+        y = np.asarray(b[nm].get_data(span_full), dtype=float)
+        if x.shape != y.shape:
+            return f"{nm}: shapes {x.shape} and {y.shape}"
+        bad = ~((x == y) | (np.isnan(x) & np.isnan(y)))
+        if bad.any():
+            i = int(np.argwhere(bad)[0][0])
+            return f"{nm}[{i}] = {x.ravel()[np.flatnonzero(bad.ravel())[0]]!r} vs {y.ravel()[np.flatnonzero(bad.ravel())[0]]!r}"
+    return None
+
+
 def run_simulate(m, db, span, method, **kw):
     with quiet():
         out, info = m.simulate(db, span, method=method, return_info=True, remove_terminal=False, when_fails="silent", **kw)
@@ -745,10 +773,16 @@ def run_case(ctx: Ctx, spec, sc, lines_out=None, only_cfg=None):
         for ig in ("data", "first_order"):
             for tolset in ("default", "func-only"):
                 cfgs.append(dict(method="period_by_period", initial_guess=ig, solver=tolset))
+    # every configuration is run through one of the documented spellings of its method (alternating), see SPELLINGS
+    for j, cfg in enumerate(cfgs):
+        cfg["spelling"] = SPELLINGS[cfg["method"]][(j // 2 + j) % 2]
     if only_cfg is not None:
         cfgs = [only_cfg]
+    all_names = spec["tvars"] + spec["shocks"] + ["ant_" + s_ for s_ in spec["shocks"]] + spec["exo"] + (["obs"] if spec["meas"] else [])
+    span_full = (span[0] + m.max_lag) >> (span[-1] + m.max_lead)
     for cfg in cfgs:
         kw = {}
+        spelling = cfg.get("spelling", cfg["method"])
         if cfg["method"] == "stacked_time":
             kw["terminal"] = cfg["terminal"]
         kw["initial_guess"] = cfg["initial_guess"]
@@ -757,12 +791,27 @@ def run_case(ctx: Ctx, spec, sc, lines_out=None, only_cfg=None):
         if cfg["solver"] == "func-only":
             kw["solver_settings"]["step_tolerance"] = float("inf")
         try:
-            out, info, ok = run_simulate(m, db, span, cfg["method"], **kw)
+            out, info, ok = run_simulate(m, db, span, spelling, **kw)
         except Exception as e:
             ctx.count(f"run:{cfg['method']}:raised:{type(e).__name__}")
             continue
+        ctx.count(f"spelling:{spelling}")
         terminal = cfg.get("terminal", "data")
         key = f"{cfg['method']}:{terminal}:{cfg['initial_guess']}:{cfg['solver']}"
+        # spelling equivalence: the same call through the other documented name of the method returns the same databox
+        alt = other_spelling(cfg["method"], spelling)
+        if alt and cfg["solver"] == "func-only":
+            try:
+                out2, info2, ok2 = run_simulate(m, db, span, alt, **kw)
+                diff = None if ok != ok2 and False else same_databox_paths(out, out2, all_names, span_full)
+                ctx.count("spelling:equivalence-checked")
+                if ok != ok2 or diff:
+                    ctx.fail("method-spelling-differs", case_payload(spec, sc, cfg),
+                             f"method={spelling!r} and method={alt!r} are documented as the same method but "
+                             + (f"one reports success and the other does not" if ok != ok2 else f"return different paths: {diff}"))
+                    continue
+            except Exception as e:
+                ctx.count(f"run:{alt}:raised:{type(e).__name__}")
         if not ok:
             ctx.count(f"not-success:{cfg['method']}:{cfg['solver']}")
             continue
@@ -814,9 +863,10 @@ def run_variant_case(ctx: Ctx, spec, scs, plan, only_cfg=None, model_nv=None):
         kw = {"initial_guess": cfg["initial_guess"], "solver_settings": {"max_iterations": MAX_ITER, "step_tolerance": float("inf")}}
         if cfg["method"] == "stacked_time":
             kw["terminal"] = cfg["terminal"]
+        spelling = cfg.setdefault("spelling", SPELLINGS[cfg["method"]][(nv + len(scs[0]["unant"])) % 2])
         try:
             with quiet():
-                out, info = m.simulate(db, span, method=cfg["method"], plan=make_plan(m, span, plan) if plan else None,
+                out, info = m.simulate(db, span, method=spelling, plan=make_plan(m, span, plan) if plan else None,
                                        return_info=True, remove_terminal=False, when_fails="silent", unpack_singleton=False,
                                        num_variants=nv, **kw)
         except Exception as e:
@@ -935,7 +985,7 @@ def run_history_case(ctx: Ctx, specs, sc, steps, only_cfg=None):
         if method == "stacked_time":
             kw["terminal"] = "first_order"
         try:
-            out, info, ok = run_simulate(m, db, span, method, **kw)
+            out, info, ok = run_simulate(m, db, span, SPELLINGS[method][si % 2], **kw)
         except Exception as e:
             ctx.count(f"history:{method}:raised:{type(e).__name__}")
             continue
